@@ -106,6 +106,8 @@ class Engine:
         self.lib_used = set()
         self.unsupported = []
         self.mod_init = False
+        self.cut_memo = {}
+        self.cut_stats = {}
         self.reset_path([])
 
     # ---------------------------------------------------------- path state
@@ -124,6 +126,7 @@ class Engine:
         self.spec_mode = False
         self.cur_contract = None
         self.havoced = False
+        self.handling_stack = []
 
     def fresh(self, hint='v'):
         self.fresh_n += 1
@@ -275,7 +278,7 @@ class Engine:
         return out
 
     def cur_obl_prefix(self):
-        return self.cur_contract.func if self.cur_contract else '<none>'
+        return self.cur_contract.key if self.cur_contract else '<none>'
 
     # -------------------------------------------------------------- modules
     def load_module(self, name):
@@ -399,6 +402,15 @@ class Engine:
 
     # ------------------------------------------------------------ statements
     def exec_block(self, stmts, env):
+        c = self.cur_contract
+        if c is not None and c.cuts and not self.mod_init and env.fn is not None \
+                and self.depth == c._depth0 and env.fn.qual == c.func:
+            for st in stmts:
+                ci = c._cut_nodes.get(id(st))
+                if ci is not None:
+                    self.do_cut(c.cuts[ci], ci, env)
+                self.exec_stmt(st, env)
+            return
         for st in stmts:
             self.exec_stmt(st, env)
 
@@ -623,7 +635,7 @@ class Engine:
         """inductive invariant: assert on entry, havoc assigned variables (and
         declared heap locations), assume invariant, one arbitrary iteration,
         assert invariant; after the loop: invariant and not guard."""
-        fq = env.fn.qual
+        fq = self.cur_contract.key
         hdr = ast.unparse(st.test) if kind == 'while' else (
             'for %s in %s' % (ast.unparse(st.target), ast.unparse(st.iter)))
         if inv.get('header') and _norm(inv['header']) != _norm(hdr):
@@ -666,11 +678,36 @@ class Engine:
             env.locals['__g_' + gname] = self.havoc_like(env.locals['__g_' + gname], gt, gname)
         for hx in inv.get('havoc_heap', []):
             self.havoc_heap(self.eval_spec(hx, env, self.ghost_env(env)))
+        for (ox, field, typ) in inv.get('havoc_fields', []):
+            self.havoc_field(self.eval_spec(ox, env, self.ghost_env(env)), field, typ)
+        for (ox, segname) in inv.get('havoc_stack', []):
+            # the namespace stack grows by an unknown number of entries pushed by earlier iterations
+            ref = self.eval_spec(ox, env, self.ghost_env(env))
+            data = self.heap[ref.addr].fields['_data']
+            n = self.fresh_int('n_' + segname)
+            self.assume(n >= 0)
+            self.heap[data.addr].items.append(SymSeg(self.fresh(segname), n, segname))
         if kind == 'for':
             k = self.fresh_int('k')
             self.assume(k >= 0)
             env.locals['__k_%d' % ordn] = VI(k)
         assume_inv()
+        declared = set()
+        for hx in inv.get('havoc_heap', []):
+            r = self.eval_spec(hx, env, self.ghost_env(env))
+            if isinstance(r, VRef):
+                declared.add(r.addr)
+        for (ox, segname) in inv.get('havoc_stack', []):
+            r = self.eval_spec(ox, env, self.ghost_env(env))
+            declared.add(self.heap[r.addr].fields['_data'].addr)
+        for (ox, field, typ) in inv.get('havoc_fields', []):
+            r = self.eval_spec(ox, env, self.ghost_env(env))
+            if isinstance(r, VRef):
+                declared.add(('f', r.addr, field))
+                fv = self.heap[r.addr].fields.get(field)
+                if isinstance(fv, VRef):
+                    declared.add(fv.addr)
+        heap_snap = self.heap_snapshot(declared)
         # decide: one more iteration, or exit
         if kind == 'while':
             go = self.truth(self.eval(st.test, env), 'loop%d.guard' % ordn)
@@ -694,6 +731,10 @@ class Engine:
                 return
             if kind == 'for':
                 env.locals['__k_%d' % ordn] = VI(k + 1)
+            changed = [a for a, txt in self.heap_snapshot(declared).items() if a in heap_snap and heap_snap[a] != txt]
+            if changed:
+                raise Unsupported('loop %d of %s modifies heap objects not declared in havoc_heap/havoc_fields: %s'
+                                  % (ordn, fq, [heap_snap[a][:80] for a in changed][:3]))
             check_inv('preserved')
             if dec_expr:
                 d1 = self.as_z3_int(self.eval_spec(dec_expr, env, self.ghost_env(env)))
@@ -704,6 +745,19 @@ class Engine:
         if kind == 'for':
             self.assume(k == seq_len)
         self.exec_block(st.orelse, env)
+
+    def heap_snapshot(self, declared):
+        cn = _Canon(self, shallow=True)
+        out = {}
+        for a, h in self.heap.items():
+            if a in declared:
+                continue
+            if isinstance(h, HObj):
+                flds = {k: v for k, v in h.fields.items() if ('f', a, k) not in declared}
+                out[a] = 'Obj(%s|%s)' % (h.name, ','.join('%s=%s' % (k, cn.val(v)) for k, v in sorted(flds.items())))
+            else:
+                out[a] = cn.heapobj(h)
+        return out
 
     def ghost_env(self, env):
         return {k[4:]: v for k, v in env.locals.items() if k.startswith('__g_')}
@@ -757,6 +811,21 @@ class Engine:
             raise Unsupported('havoc of %s (None on entry) needs a declared type' % name)
         return self.fresh_opaque(name)
 
+    def havoc_field(self, ref, field, typ):
+        if not isinstance(ref, VRef) or not isinstance(self.heap[ref.addr], HObj):
+            raise Unsupported('havoc_field of %r' % (ref,))
+        h = self.heap[ref.addr]
+        old = h.fields.get(field)
+        if h.name == 'ghost_iter' and field == 'pos':
+            p = self.fresh_int('pos')
+            self.assume(p >= 0)
+            h.fields['pos'] = p
+            return
+        if isinstance(old, VRef) and isinstance(self.heap[old.addr], (HList, HDict)):
+            self.havoc_heap(old)
+            return
+        h.fields[field] = self.havoc_like(old, typ, field)
+
     def havoc_heap(self, v):
         if isinstance(v, VRef):
             h = self.heap[v.addr]
@@ -792,10 +861,12 @@ class Engine:
                         if h.name:
                             env.locals[h.name] = exc
                         env.handling.append(exc)
+                        self.handling_stack.append(exc)
                         try:
                             self.exec_block(h.body, env)
                         finally:
                             env.handling.pop()
+                            self.handling_stack.pop()
                         break
                 else:
                     raise
@@ -1429,7 +1500,12 @@ class Engine:
                 if self.valid(off == pos):
                     return x
                 pos = pos + 1
-        raise Unsupported('cannot resolve list index %s' % idx)
+        # position not decidable under the path condition: if-then-else over the alternatives
+        from .spec import list_elem_term
+        try:
+            return VO_term(list_elem_term(self, h, idx), self.fresh('elem'))
+        except Unsupported:
+            raise Unsupported('cannot resolve list index %s' % idx)
 
     def getitem(self, obj, idx):
         from . import ops
@@ -1539,3 +1615,203 @@ def _assigned_names(stmts):
                     if isinstance(m, ast.Name):
                         out.add(m.id)
     return out
+
+
+# ---------------------------------------------------------------- cut points
+# A cut is a join point declared in the sidecar contract (DESIGN.md 2.4a): at a
+# uniquely identified statement of the function under verification the engine
+#   1. checks the cut's ``assume`` clauses as obligations on the current state,
+#   2. replaces the variables listed in ``abstract`` by fresh values of the
+#      declared shape (after a conformance check) and re-assumes the clauses,
+#   3. deletes every local that is not declared ``live`` (a later read of a
+#      deleted local is Unsupported -> undecided, never silently wrong),
+#   4. drops path-condition conjuncts over symbols that are no longer reachable
+#      (weakening the path condition is always sound for proving),
+#   5. computes a canonical signature of the remaining state; if an earlier
+#      path reached the same cut with an identical signature the path is
+#      merged into it (its continuation would be identical).
+import re as _re
+
+_FRESH_RE = _re.compile(r"[A-Za-z_][\w.\[\]'\-]*![0-9]+(?:![0-9]+)*")
+_REF_RE = _re.compile(r'ref!([0-9]+)')
+
+
+class _Canon:
+    def __init__(self, E, shallow=False):
+        self.E = E
+        self.addr = {}
+        self.names = {}
+        self.out = []
+        self.shallow = shallow
+
+    def nm(self, s):
+        if self.shallow:
+            return s
+
+        def sub(m):
+            k = m.group(0)
+            if k.startswith('ref!'):
+                a = int(k[4:])
+                return 'ref#%s' % self.addr.get(a, '?%d' % a)
+            if k not in self.names:
+                self.names[k] = '%s#%d' % (k.split('!')[0], len(self.names))
+            return self.names[k]
+        return _FRESH_RE.sub(sub, s)
+
+    def term(self, t):
+        if isinstance(t, (bool, int, str, float)) or t is None:
+            return repr(t)
+        if isinstance(t, z3.ExprRef):
+            return self.nm(t.sexpr())
+        return self.nm(repr(t))
+
+    def val(self, v):
+        E = self.E
+        if isinstance(v, VRef):
+            if self.shallow:
+                return '@%d' % v.addr
+            if v.addr in self.addr:
+                return '@%d' % self.addr[v.addr]
+            self.addr[v.addr] = len(self.addr)
+            return '@%d=%s' % (self.addr[v.addr], self.heapobj(E.heap[v.addr]))
+        if isinstance(v, VC):
+            return 'C(%r:%s)' % (v.v, type(v.v).__name__)
+        if isinstance(v, (VI, VB, VS, VR)):
+            return '%s(%s)' % (type(v).__name__, self.term(v.t))
+        if isinstance(v, VT):
+            return 'T(%s)' % ','.join(self.val(x) for x in v.items)
+        if isinstance(v, VO):
+            return 'O(%s)' % self.term(v.t)
+        if isinstance(v, VSeq):
+            g = ''
+            if v.ghost is not None:
+                g = '{%s}' % ','.join('%s:%s' % (k, self.term(x) if not isinstance(x, list) else [self.term(y) for y in x])
+                                      for k, x in sorted(v.ghost.items()))
+            return 'Seq(%s,%s,%s%s)' % (self.nm(v.name), self.term(v.length), v.kind, g)
+        if isinstance(v, VFn):
+            return 'Fn(%s)' % v.qual
+        if isinstance(v, VCls):
+            return 'Cls(%s)' % v.qual
+        if isinstance(v, (VBI, VMod)):
+            return '%s(%s)' % (type(v).__name__, v.name)
+        if isinstance(v, VBM):
+            return 'BM(%s,%s)' % (self.val(v.fn), self.val(v.self))
+        if isinstance(v, VExc):
+            return 'Exc(%s,%s,%s,%s,%s)' % (v.cls, v.sym, sorted(v.neg), [self.val(a) for a in v.args],
+                                            sorted((k, self.val(x)) for k, x in v.fields.items()))
+        if isinstance(v, VRe):
+            return 'Re(%r,%r)' % (v.pattern, v.flags)
+        if isinstance(v, z3.ExprRef):
+            return self.term(v)
+        if isinstance(v, (bool, int, str)) or v is None:
+            return repr(v)
+        if isinstance(v, list):
+            return '[%s]' % ','.join(self.val(x) for x in v)
+        if isinstance(v, dict):
+            return '{%s}' % ','.join('%s:%s' % (k, self.val(x)) for k, x in sorted(v.items(), key=lambda kv: str(kv[0])))
+        return self.nm(repr(v))
+
+    def heapobj(self, h):
+        if isinstance(h, HList):
+            return 'L(%s|%s)' % (self.val(h.base) if h.base is not None else '', ','.join(
+                self.val(x) if not isinstance(x, SymSeg) else 'Seg(%s,%s)' % (self.nm(x.name), self.term(x.length))
+                for x in h.items))
+        if isinstance(h, HDict):
+            return 'D(%s|%s|%s|del=%s)' % (self.nm(h.base) if h.base else '',
+                                           ','.join('%s=>%s' % (self.val(k), self.val(v)) for k, v in h.entries),
+                                           '' if self.shallow else
+                                           ','.join('%r=>%s' % (k, self.val(v)) for k, v in sorted(h.val_cache.items(), key=lambda kv: repr(kv[0]))),
+                                           sorted(map(repr, h.deleted)))
+        if isinstance(h, HObj):
+            return 'Obj(%s,%s,%s,%s|%s)' % (h.cls.qual if isinstance(h.cls, VCls) else h.cls, h.lazy, self.nm(h.name), h.prov,
+                                            ','.join('%s=%s' % (k, self.val(v)) for k, v in sorted(h.fields.items())))
+        return repr(h)
+
+
+def _term_syms(t, acc):
+    """names of uninterpreted constants in a z3 term"""
+    seen = set()
+    stack = [t]
+    while stack:
+        x = stack.pop()
+        if x.get_id() in seen:
+            continue
+        seen.add(x.get_id())
+        if z3.is_app(x):
+            if x.num_args() == 0 and x.decl().kind() == z3.Z3_OP_UNINTERPRETED:
+                acc.add(x.decl().name())
+            else:
+                if x.decl().kind() == z3.Z3_OP_UNINTERPRETED:
+                    acc.add(x.decl().name())
+                stack.extend(x.children())
+        elif z3.is_quantifier(x):
+            stack.append(x.body())
+
+
+def _engine_cut(self, cut, idx, env):
+    c = self.cur_contract
+    key = c.key
+    genv = self.ghost_env(env)
+    # 1. established
+    for nm, ex in cut.get('assume', {}).items():
+        v = self.eval_spec(ex, env, genv)
+        self.oblige('%s::cut%d.%s.established' % (key, idx, nm), self.as_z3_bool(v), kind='invariant',
+                    detail='%s [at cut %d]' % (ex, idx))
+    # 2. abstraction
+    from .contracts import abstract_value
+    for var, spec in cut.get('abstract', {}).items():
+        if var not in env.locals:
+            raise Unsupported('cut %d: variable %s to abstract is not bound' % (idx, var))
+        env.locals[var] = abstract_value(self, env.locals[var], spec, 'cut%d_%s' % (idx, var))
+        self.havoced = True
+    for nm, ex in cut.get('assume', {}).items():
+        self.assume(self.as_z3_bool(self.eval_spec(ex, env, self.ghost_env(env))))
+    # 3. liveness
+    live = set(cut.get('live', ())) | set(cut.get('abstract', {}))
+    for k in list(env.locals):
+        if k not in live and not k.startswith('__g_') and not k.startswith('__k_'):
+            del env.locals[k]
+    if cut.get('forget_trace'):
+        self.trace = []
+    # 4. + 5. signature
+    cn = _Canon(self)
+    parts = []
+    for k in sorted(env.locals):
+        parts.append('%s=%s' % (k, cn.val(env.locals[k])))
+    parts.append('handling=%s' % [cn.val(x) for x in env.handling])
+    for gk in sorted(self.ghost, key=repr):
+        gv = self.ghost[gk]
+        if isinstance(gk, tuple) and gk and gk[0] == 'td_entry':
+            if gk[1] not in cn.addr:
+                continue
+            parts.append('ghost td_entry@%d=%s' % (cn.addr[gk[1]], cn.val({k: (VRef(v) if k == 'data_addr' else v) for k, v in gv.items()})))
+        else:
+            parts.append('ghost %s=%s' % (cn.nm(repr(gk)), cn.val(gv)))
+    reach = set(cn.names)
+    state_text = '\n'.join(parts)
+    live_syms = set()
+    for m in _re.finditer(r"[A-Za-z_][\w.\[\]'!\-]*", state_text):
+        live_syms.add(m.group(0))
+    newpc = []
+    for f in self.pc:
+        syms = set()
+        _term_syms(f, syms)
+        dead = [s for s in syms if '!' in s and s not in reach and not s.startswith('ref!')]
+        if dead:
+            continue
+        newpc.append(f)
+    self.pc = newpc
+    pcs = sorted(cn.nm(f.sexpr()) for f in self.pc)
+    tf = sorted('%s=%s' % (cn.nm(repr(k)), v) for k, v in self.tfacts.items()
+                if not ('!' in str(k[0]) and str(k[0]) not in reach))
+    self.tfacts = {k: v for k, v in self.tfacts.items() if not ('!' in str(k[0]) and str(k[0]) not in reach)}
+    sig = '\n'.join([state_text, 'PC', '\n'.join(pcs), 'TF', '\n'.join(tf), 'TRACE', cn.nm(repr(self.trace)),
+                     'HAVOC %s' % self.havoced])
+    memo = self.cut_memo.setdefault((key, idx), set())
+    self.cut_stats[(key, idx)] = self.cut_stats.get((key, idx), 0) + 1
+    if sig in memo:
+        raise PathAbort()
+    memo.add(sig)
+
+
+Engine.do_cut = _engine_cut
